@@ -19,6 +19,7 @@
 #include <set>
 #include <stdexcept>
 
+#include <bxdecay0/bb_utils.h>
 #include <bxdecay0/decay0_generator.h>
 #include <bxdecay0/mdl_event_op.h>
 
@@ -218,6 +219,11 @@ struct Runner
         g->set_decay_dbd_level(std::atoi(a.arg.c_str()));
       } else if (a.name == "SetMode") {
         g->set_decay_dbd_mode((bxdecay0::dbd_mode_type)std::atoi(a.arg.c_str()));
+      } else if (a.name == "SetModeByLabel") {
+        int m = std::atoi(a.arg.c_str());
+        std::string label = "no_such_mode";
+        if (m > 0) label = bxdecay0::dbd_modes().at((bxdecay0::dbd_mode_type)m).unique_label;
+        g->set_decay_dbd_mode_by_label(label);
       } else if (a.name == "SetRange") {
         if (a.arg == "none")
           g->set_decay_dbd_esum_range(std::nan(""), std::nan(""));
